@@ -879,6 +879,11 @@ func (c *MapConverter) To(obj Object) (interface{}, error) {
 		if err != nil {
 			return nil, err
 		}
+		if conv == nil {
+			// the zero reflect.Value would delete the key instead of storing nil
+			gMap.SetMapIndex(reflect.ValueOf(k), reflect.Zero(c.valueType))
+			continue
+		}
 		gMap.SetMapIndex(reflect.ValueOf(k), reflect.ValueOf(conv))
 	}
 	return gMap.Interface(), nil
